@@ -4,8 +4,7 @@ CONSTANTS
   WsCount = 3
   PreLayouts = 1
 INVARIANTS
-  Inv_WF
-  Inv_Strip
+  Inv_Layout
   Inv_Norm
   Inv_Inj
 POSTCONDITION Emit
